@@ -50,6 +50,8 @@ def parse(out, names):
         elif "VERIFICATION:- FAILED" in line:
             if r["status"] not in ("oom", "timeout"):
                 r["status"] = "failed"
+            if "encountered no panics" in line:
+                r["failed_checks"].append("expected panic did not occur (should_panic harness)")
         elif "out of memory" in line or "CBMC failed" in line:
             r["status"] = "oom"
         elif "timed out" in line.lower() or "timeout" in line.lower():
@@ -161,10 +163,11 @@ def main():
     chk.cov["stubs"] = ["slab -> /verif/kani/slab-model (heap-free fixed-capacity model with the same key policy; counterexamples are replayed natively on the real slab)"]
     chk.cov["samples"] = [{"harness": n, "status": res[n]["status"], "time_s": res[n]["time"], "checks": res[n]["checks"]} for n in names[:6]]
     if pid == "C12":
-        chk.cov["rule"] = ("one harness per concrete shape (every labelled tree with <= 3 nodes, K=2%s, plus an index-reuse layout) and operation: "
+        chk.cov["rule"] = ("one harness per concrete shape (every labelled tree with <= 3 nodes, K=2%s, plus an index-reuse layout and a node that got a child and lost it again) and operation: "
                            "add_child_node, update_node, merge_child_with_parent with symbolic arguments (valid and invalid index, every label, "
                            "any payload); try_remove_child / remove_all_descendants with every concrete argument that removes a leaf, hits a "
-                           "missing child or an invalid index; non-trivial = harness verified") % (", K=3" if t == "thorough" else "")
+                           "missing child or an invalid index; merge_child_with_parent on a node with two children (4-node shape) must hit the "
+                           "implementation's assertion (#[kani::should_panic]); non-trivial = harness verified") % (", K=3" if t == "thorough" else "")
         chk.cov["explanation"] = ("Kani/CBMC model-checks the compiled Tree code: after the operation every observable of every slot (parent, "
                                   "each child link, leaf flag, value, contains, len, root) is asserted against the post-state computed by a "
                                   "reference model in the generator; an Err result must leave all of them equal to the pre-state. states = CBMC "
